@@ -1,16 +1,16 @@
 SPECIFICATION Spec
 CONSTANTS
-  EffTokens = {"in"}
+  EffTokens = {"in", "ina"}
   MaxEff = 2
   Modes = {"normal"}
   FnModes = {"normal"}
   MaxFns = 1
   Depth = 3
-  InputOps = {"set_input", "clear_input"}
+  InputOps = {"set_input"}
   Entries = {"run", "call"}
   TracerStyles = {"none"}
   Threadeds = {FALSE}
-  Givens = {"empty", "one", "blank"}
+  Givens = {"empty", "blank"}
   Blockeds = {"none"}
   Flags = {}
 INVARIANT Restored
